@@ -266,7 +266,7 @@ def _chk_multi(args, res, old):
         return "jtv has %d rows for %d bins" % (len(rows), len(labels))
     for k, r in enumerate(rows):
         if r[1] != labels[k] or len(r) != 2 + len(old["ids"]) or \
-                any(abs(float(r[2 + s]) - old["logs"][s][k]) > 1e-4 for s in range(len(old["ids"]))):
+                any(not abs(float(r[2 + s]) - old["logs"][s][k]) <= 1e-4 for s in range(len(old["ids"]))):
             return "jtv row %d = %r, expected label %s and values %r" % (k, r, labels[k], [l[k] for l in old["logs"]])
     hdr, rows = res["cdt"]
     if hdr != ["GID", "CLID", "NAME", "GWEIGHT"] + old["ids"]:
@@ -276,7 +276,7 @@ def _chk_multi(args, res, old):
         return "cdt has %d bin rows for %d bins" % (len(body), len(labels))
     for k, r in enumerate(body):
         if r[2] != labels[k] or len(r) != 4 + len(old["ids"]) or \
-                any(abs(float(r[4 + s]) - old["logs"][s][k]) > 1e-4 for s in range(len(old["ids"]))):
+                any(not abs(float(r[4 + s]) - old["logs"][s][k]) <= 1e-4 for s in range(len(old["ids"]))):
             return "cdt row %d = %r, expected label %s and values %r" % (k, r, labels[k], [l[k] for l in old["logs"]])
 
 
